@@ -334,8 +334,9 @@ static void qsx_print_basis (FILE * o, QSbasis * B)
 static long qsx_log_msgs = 0;
 static void qsx_log_sink (const char *msg, void *data)
 {
-	(void) msg; (void) data;
+	(void) data;
 	qsx_log_msgs++;
+	if (getenv ("QSX_LOG")) fprintf (qsx_get_out (), "LOG %s\n", msg);
 }
 
 #endif
